@@ -3,6 +3,7 @@ package c18
 import (
 	"encoding/json"
 	"fmt"
+	"github.com/samaritan-proxy/samaritan/host"
 	"sort"
 	"strconv"
 	"strings"
@@ -25,9 +26,52 @@ type iterCase struct {
 	Nodes [][]page `json:"nodes"` // per node its cursor chain (first page is served for cursor 0)
 	Match string   `json:"match,omitempty"`
 	Count int      `json:"count,omitempty"`
+	// after the iteration every host is removed from the service (zero nodes): any cursor is past the last node then.
+	// With Nodes empty the service never had a host.
+	RemoveAll bool `json:"remove_all,omitempty"`
+}
+
+var terminal = ref.ArrV(ref.BulkS("0"), ref.ArrV())
+
+// checkZeroNodes: with no backend node every client cursor must be answered by the terminating reply.
+func checkZeroNodes(cl *sim.Client, c iterCase, where string) *verdict {
+	extra := []string{}
+	if c.Match != "" {
+		extra = append(extra, "MATCH", c.Match)
+	}
+	if c.Count > 0 {
+		extra = append(extra, "COUNT", strconv.Itoa(c.Count))
+	}
+	for _, cur := range []uint64{0, 5, 1 << 48, 3<<48 | 77, 32767 << 48} {
+		r, err := cl.Do(20*time.Second, append([]string{"SCAN", strconv.FormatUint(cur, 10)}, extra...)...)
+		if err != nil {
+			return &verdict{"reply-missing", fmt.Sprintf("%s: SCAN %d: %v", where, cur, err)}
+		}
+		if !ref.Equal(r, terminal) {
+			return &verdict{"past-last-node-not-terminal", fmt.Sprintf("%s: SCAN %d answered %s", where, cur, r)}
+		}
+	}
+	return nil
+}
+
+func checkNoNodesEver(c iterCase) *verdict {
+	px, err := sim.StartProxy(sim.ProxyOpts{})
+	if err != nil {
+		return &verdict{"proxy-start", err.Error()}
+	}
+	defer px.Stop(20 * time.Second)
+	cl, err := sim.Dial(px.Addr)
+	if err != nil {
+		return &verdict{"client-dial", err.Error()}
+	}
+	defer cl.Close()
+	return checkZeroNodes(cl, c, "service without any host")
 }
 
 func checkIter(c iterCase) (nt bool, v *verdict) {
+	if len(c.Nodes) == 0 {
+		return true, checkNoNodesEver(c)
+	}
 	w, err := sim.NewWorld(len(c.Nodes), 0)
 	if err != nil {
 		return false, nil
@@ -152,12 +196,25 @@ func checkIter(c iterCase) (nt bool, v *verdict) {
 			return nt, &verdict{"past-last-node-not-terminal", fmt.Sprintf("SCAN %s (node index %d of %d) answered %s", past, len(c.Nodes), len(c.Nodes), r)}
 		}
 	}
+	if c.RemoveAll {
+		var hs []*host.Host
+		for _, a := range w.Addrs(w.Masters()) {
+			hs = append(hs, host.New(a))
+		}
+		if err := px.P.OnSvcHostRemove(hs); err != nil {
+			return nt, nil
+		}
+		if v := checkZeroNodes(cl, c, "after every host was removed"); v != nil {
+			return true, v
+		}
+		nt = true
+	}
 	return nt, nil
 }
 
 func genIter(t *rapid.T) iterCase {
-	c := iterCase{}
-	n := rapid.IntRange(1, 6).Draw(t, "nodes")
+	c := iterCase{RemoveAll: rapid.IntRange(0, 3).Draw(t, "removeall") == 0}
+	n := rapid.IntRange(0, 6).Draw(t, "nodes")
 	kid := 0
 	for i := 0; i < n; i++ {
 		m := rapid.IntRange(1, 5).Draw(t, "pages")
